@@ -1,11 +1,12 @@
 CHECK = dict(
     level="exploration",
-    level_text="Generated-input search: rapid-drawn raw request lines and header sets sent by a raw TCP client (IPv4 and IPv6 loopback peers) to linkedIPHandler behind a real http.Server with a recording backend, judged by an allow-list predicate on what the backend received (method, documented shape, dot-segment normalisation under RFC 3986 and path.Clean, exact client-IP header, forged-marker detector); the same generator drives shouldProxy directly for a wider path search. Held on N cases is evidence, not proof.",
+    level_text="Generated-input search: rapid-drawn raw request lines and header sets sent by a raw TCP client (IPv4 and IPv6 loopback peers) to linkedIPHandler behind a real http.Server with a recording backend, judged by an allow-list predicate on what the backend received (method, documented shape, dot-segment normalisation under RFC 3986 and path.Clean, exact client-IP header, forged-marker detector); the same generator drives shouldProxy directly for a wider path search; a concurrent part releases K=2..8 forwardable requests from pairwise distinct peers into one handler at the same moment (barrier at the handler entry, backend holds each until all K are inside) and checks each request's own client-IP header, method and path, also once under the race detector. Held on N cases is evidence, not proof.",
     level_note="Trusts net/http request parsing, net/url, httputil.ReverseProxy's transport and the kernel loopback. A path counts as leaving the prefix only if it does so under every reading the oracle knows (decoded / unreserved-only decoded x RFC 3986 remove_dot_segments / path.Clean); reading-dependent cases (%2F-dependent, slash-merging-dependent) are counted, not judged. Empty placeholder segments are not judged.",
     technique="property-based testing (rapid): raw request lines and forged header sets over real loopback HTTP against a recording backend with an allow-list oracle",
     assumptions=[
         "net/http, net/url, httputil.ReverseProxy internals and the loopback network are trusted",
         "the backend resolves dot segments by RFC 3986 remove_dot_segments or path.Clean, on the decoded path or with only unreserved escapes decoded",
+        "concurrent part: goroutine schedules are sampled, not owned; the barrier only aligns the requests at the handler entry",
         "IPv4 peers are 127.0.0.1-127.0.0.8, the IPv6 peer is ::1 (the only loopback IPv6 address)",
     ],
     units=[
